@@ -138,6 +138,14 @@ macro_rules! int_laws {
                     obs.exclude("width whose difference overflows the element type");
                 }
             }
+            if a > b {
+                // bounds stored in the wrong order (reachable through the public variants and through arithmetic on
+                // intervals): the accessors still return what is stored, and is_degenerate / width stay consistent
+                let i = Interval::TwoSided(a, b);
+                ensure!(i.low() == Some(a) && i.high() == Some(b) && i.is_two_sided(), "C14/crossed/accessors", "{i:?}: low {:?} high {:?}", i.low(), i.high());
+                ensure!(!i.is_degenerate(), "C14/crossed/is_degenerate", "{i:?} has different bounds but is_degenerate() is true");
+                obs.class("crossed-variant");
+            }
             let _ = $signed;
             Ok(())
         }
@@ -207,6 +215,12 @@ fn $name(a: $t, b: $t, obs: &mut Obs) -> PResult {
         } else {
             obs.exclude("width of [inf, inf] (inf - inf)");
         }
+    }
+    if a > b {
+        let i = Interval::TwoSided(a, b);
+        ensure!(i.low() == Some(a) && i.high() == Some(b) && i.is_two_sided(), "C14/crossed/accessors", "{i:?}: low {:?} high {:?}", i.low(), i.high());
+        ensure!(!i.is_degenerate(), "C14/crossed/is_degenerate", "{i:?} has different bounds but is_degenerate() is true");
+        obs.class("crossed-variant");
     }
     Ok(())
 }
@@ -327,7 +341,7 @@ pub fn run(run: &mut Run) {
     run.prop("str", n / 4, s, str_case);
     let s = (any::<char>(), any::<char>()).prop_map(|(a, b)| CharPair { a, b });
     run.prop("char", n / 4, s, char_case);
-    for c in ["bounds/equal", "bounds/ordered", "bounds/inverted", "int/isize", "int/usize", "int/i128", "int/u128", "int/i16", "int/u16", "int/i32", "int/u32", "float/f32"] {
+    for c in ["bounds/equal", "bounds/ordered", "bounds/inverted", "int/isize", "int/usize", "int/i128", "int/u128", "int/i16", "int/u16", "int/i32", "int/u32", "float/f32", "crossed-variant"] {
         run.require_class(c);
     }
     run.assumptions.push("NaN bounds are outside the quantifier; that intervals of different kinds hash differently is not required and not asserted".into());
